@@ -5,7 +5,7 @@ from common import call, main, rng_of, vlib
 import gencommon as g
 from optcommon import skey
 
-from predicate.generator.generate_true import generate_true
+from predicate import generate_true          # the PUBLIC entry point (what users import)
 from predicate import predicate as PP
 from predicate.standard_predicates import (ge_p, is_dict_of_p, is_int_p, is_str_p, is_tuple_of_p, is_list_of_p, regex_p, eq_p, le_p, is_bool_p)
 from predicate.set_predicates import is_real_subset_p, is_subset_p
@@ -107,6 +107,39 @@ def search(payload):
                         fails.append(rec)
                     break
         if timeouts >= 3:
+            break
+    # judged by a reference written from the CONSTRUCTOR CALL, not by the object the library built (a factory that re-interprets its
+    # arguments, or an object mutated on the way, would otherwise vouch for its own values)
+    from predicate.set_predicates import in_p
+    small = in_p(1, 2)
+    specs = [("in_p((0, 0))", lambda: in_p((0, 0)), lambda v: v == (0, 0)),
+             ("in_p((1, 2), (3, 4))", lambda: in_p((1, 2), (3, 4)), lambda v: v in ((1, 2), (3, 4))),
+             ("in_p(frozenset({1}))", lambda: in_p(frozenset({1})), lambda v: v == frozenset({1})),
+             ("eq_p((1, 2))", lambda: eq_p((1, 2)), lambda v: v == (1, 2)),
+             ("is_tuple_of_p(in_p((1, 2)), is_int_p)", lambda: is_tuple_of_p(in_p((1, 2)), is_int_p),
+              lambda v: isinstance(v, tuple) and len(v) == 2 and v[0] == (1, 2) and isinstance(v[1], int)),
+             ("is_tuple_of_p(is_list_of_p(small | eq_p(3)), small) with small = in_p(1, 2) shared", lambda: is_tuple_of_p(is_list_of_p(small | eq_p(3)), small),
+              lambda v: isinstance(v, tuple) and len(v) == 2 and isinstance(v[0], list) and all(i in (1, 2, 3) for i in v[0]) and v[1] in (1, 2)),
+             ("in_p(1, 2) after it was used inside a generated disjunction", lambda: small, lambda v: v in (1, 2))]
+    for label, mk_, ref_ in specs:
+        for seed in range(3):
+            random.seed(int(payload["seed"]) * 31 + seed)
+            try:
+                vals, err = g.take(GENF(mk_()), 12)
+            except (ValueError, TypeError):
+                continue
+            for i, v in enumerate(vals):
+                n += 1
+                try:
+                    okv = bool(ref_(v))
+                except Exception:  # noqa: BLE001
+                    okv = False
+                if not okv:
+                    fails.append({"p": label, "position": i, "value": repr(v), "p(value)": "False by the plain-Python meaning of the constructor call",
+                                  "library_says": repr(call(mk_(), v))})
+                    break
+            else:
+                continue
             break
     # listed witnesses
     w12 = is_dict_of_p(("a", is_int_p), (is_str_p, is_str_p))
